@@ -191,6 +191,17 @@ func c10Run(c *wk.Ctx, idx int64, seed int64, shared bool, scratch string) (tran
 			if !a.IsValid() {
 				a = e.LANIP(r)
 			}
+			if r.Intn(3) == 0 {
+				// INIT-REBOOT for an address that is not the client's lease: NAK, and in secondary mode a forged DECLINE to the
+				// other server from a goroutine that outlives ProcessPacket
+				x := xid[cl]
+				x[3] = byte(step)
+				xid[cl] = x
+				pkt, label = dhcpReq(3, func(m *refdec.DHCPMsg) {
+					m.Options = append(m.Options, refdec.DHCPOpt{Code: 50, Data: ip4b(e.LANIP(r))})
+				}), "dhcp-reboot-other-address"
+				break
+			}
 			pkt, label = dhcpReq(3, func(m *refdec.DHCPMsg) { m.CI = a }), "dhcp-renew"
 		case k < 7:
 			j := r.Intn(2)
